@@ -40,6 +40,9 @@ func inj(tag string, q byte) scen.Step {
 func handle(h int) scen.Step { return scen.Step{Op: "handle", H: h} }
 
 var workloads = map[string]workload{
+	// the client subscribes to what it publishes: inbound traffic (acknowledged by the reader goroutine) runs
+	// alongside the outbound exchanges; only meaningful with the Echo broker configuration
+	"echo":    {Pre: []scen.Step{handle(1)}, Steps: []scen.Step{subw(ss("t/#", 2)), pub(1, "a"), pub(2, "b"), pub(0, "z"), pub(2, "c"), op("cut"), pub(1, "d"), pub(2, "e")}},
 	"idlecut": {Steps: []scen.Step{pubw(1, "a"), op("cut")}},
 	"q1x3":    {Steps: []scen.Step{pub(1, "a"), pub(1, "b"), pub(1, "c")}},
 	"q2x1":    {Steps: []scen.Step{pub(2, "a")}},
@@ -139,6 +142,9 @@ func (p retryParams) base() scen.Scenario {
 	cl := p.Client
 	if cl == "" {
 		cl = "reconnect"
+	}
+	if p.W == "echo" {
+		p.Cfg.Echo = true
 	}
 	return scen.Scenario{Client: cl, Cfg: p.Cfg, AlwaysResub: p.Always, Chunk: p.Chunk, LateWriteOK: p.Late, SlowReturn: p.Slow, Pre: w.Pre, Steps: w.Steps, OnConnect: w.OnC, SlowActive: w.Slow}
 }
@@ -443,6 +449,12 @@ func (p retryParams) scenarios(rng *rand.Rand) []scen.Scenario {
 					kind = fmt.Sprintf("refuse:%d", 1+rng.Intn(5))
 				case 1:
 					kind = scen.NoConnack
+				case 2:
+					kind = fmt.Sprintf("refuseopen:%d", 1+rng.Intn(5))
+				case 3:
+					if i%4 == 0 {
+						kind = scen.DropResp // only in plans that configure a response timeout (below)
+					}
 				}
 				f = append(f, scen.Fault{At: at, Kind: kind})
 			}
@@ -456,9 +468,18 @@ func (p retryParams) scenarios(rng *rand.Rand) []scen.Scenario {
 					hasNoConnack = true
 				}
 			}
+			hasDrop := false
+			for _, x := range f {
+				if x.Kind == scen.DropResp {
+					hasDrop = true
+				}
+			}
 			add(f, dial, func(s *scen.Scenario) {
 				if hasNoConnack {
 					s.TimeoutMs = 25
+				}
+				if hasDrop {
+					s.RespMs, s.TimeoutMs = 8, 40
 				}
 				s.WaitBaseMs, s.WaitMaxMs = 1, []int{1, 2, 4}[rng.Intn(3)]
 			})
